@@ -277,7 +277,7 @@ func mustPassBeforeX(start *ssa.BasicBlock, hit func(ssa.Instruction) bool, stop
 			trail = append(trail, fmt.Sprintf("block %d (%s) reached without it", b.Index, b.Comment))
 			return false
 		}
-		for _, s := range b.Succs {
+		for _, s := range liveSuccs(b) {
 			if !visit(s) {
 				trail = append(trail, fmt.Sprintf("via block %d (%s)", b.Index, b.Comment))
 				return false
